@@ -49,6 +49,35 @@ KF_C02_1_Sym(X, name) ==
      /\ name \in ObsProxied(X)
 
 (***************************************************************************)
+(* KF-C02-2  Several insertions at the END of one block (offset = size):   *)
+(* a label that ends an earlier patch becomes an end-of-block label of the *)
+(* patch's last block, and the next insertion at the same point goes in    *)
+(* front of end-of-block labels - the label ends up behind the later       *)
+(* patches instead of at the end of its own.                               *)
+(* TrailingMoved(X): [exp, moved] facts of exactly those labels.           *)
+(***************************************************************************)
+TrailingMoved(X) ==
+  LET rs == X.t.reqs
+      cand == {i \in DOMAIN rs :
+                 /\ rs[i].op = "ins"
+                 /\ rs[i].off = BlockByU(X.t.pre, rs[i].u).n
+                 /\ \E j \in DOMAIN rs : j # i /\ rs[j].op = "ins" /\ rs[j].u = rs[i].u
+                                           /\ rs[j].off = rs[i].off /\ rs[j].id > rs[i].id}
+      shift(i) == Sum([j \in DOMAIN rs |->
+                        IF j # i /\ rs[j].op = "ins" /\ rs[j].u = rs[i].u /\ rs[j].off = rs[i].off
+                           /\ rs[j].id > rs[i].id THEN rs[j].patch.n ELSE 0])
+      nm == SecOfBlock(X.t.pre, rs[CHOOSE i \in cand : TRUE].u).name
+      L == X.E[nm]
+      P == X.P[nm]
+      facts(i) == LET r == rs[i]
+                      tl == {l \in Range(r.patch.labels) : l.o = r.patch.n}
+                      items == {k \in DOMAIN L : L[k].t = "lbl" /\ L[k].src = "patch" /\ L[k].rid = r.id
+                                                  /\ \E l \in tl : l.nm = L[k].nm}
+                  IN  {[exp |-> [n |-> L[k].base, s |-> nm, p |-> P[k]],
+                        moved |-> [n |-> L[k].base, s |-> nm, p |-> P[k] + shift(i)]] : k \in items}
+  IN  IF cand = {} THEN {} ELSE UNION {facts(i) : i \in {c \in cand : SecOfBlock(X.t.pre, rs[c].u).name = nm}}
+
+(***************************************************************************)
 (* CFG findings (all need function tables to be present)                   *)
 (* KF-C03-1  fallthrough edges are only preserved, never synthesized: no   *)
 (*           FT into a block whose original predecessor could not fall     *)
@@ -176,6 +205,14 @@ KfTags(X, K, clause) ==
          IF /\ ExpProxied(X) \cup PreProxied(X) \subseteq ObsProxied(X)
             /\ \A n \in ObsProxied(X) \ (ExpProxied(X) \cup PreProxied(X)) : KF_C02_1_Sym(X, n)
          THEN {"KF-C02-1"} ELSE {}
+    [] clause = "C02_PatchLabels" ->
+         LET tm == TrailingMoved(X)
+             missing == ExpPatchSymFacts(X) \ ObsPatchSymFacts(X)
+             extra == ObsPatchSymFacts(X) \ ExpPatchSymFacts(X)
+         IN  IF /\ tm # {}
+                /\ missing \subseteq {x.exp : x \in tm}
+                /\ extra \subseteq {x.moved : x \in tm}
+             THEN {"KF-C02-2"} ELSE {}
     [] clause = "C03_Fallthrough" ->
          ExplainAll(X, K, clause, SDiff(K.exp.ft, ByType(K.obs, {"Fallthrough"})))
     [] clause = "C03_Returns" ->
